@@ -214,6 +214,11 @@ def r3_read_target(chk, prog):
             continue
         if edges:
             T.extend(edges)
+    # with enforcement off nothing about time may fail the read: the clock is only consulted on the Safe side
+    st = [bb for bb, _ in ctx.calls(SYSTEM_TIME)]
+    off_reach = ctx.cfg.reach((0,), set(_safe_edges(ctx, U)))
+    chk.require(bool(st) and not (set(st) & off_reach), "R3", ctx.fn, "off-means-off",
+                "read_target consults the clock (and can fail on it) although enforcement is switched off")
     targets = [bb for bb, _ in ctx.calls("tough::schema::Targets::find_target", "tough::cache::<impl tough::Repository>::fetch_target")]
     chk.floor("R3", len(targets), 2, "find_target/fetch_target calls in read_target")
     path = ctx.cfg.witness_path(targets, set(U) | set(T))
